@@ -1,3 +1,4 @@
+import NgVerif.Proofs.Source
 import NgVerif.Proofs.Enc
 import NgVerif.Proofs.Coords
 import NgVerif.Proofs.CsegOwn
@@ -77,5 +78,23 @@ theorem encoder_selection_follows_info (r : Enc.Req) (c : Enc.Codec) :
 example : Enc.select ⟨some "uint64", some 2, some "compressed_segmentation", true⟩ = some .cseg ∧
     Enc.select ⟨some "uint16", some 1, some "compressed_segmentation", true⟩ = none ∧
     Enc.select ⟨some "uint8", some 2, some "jpeg", false⟩ = none := by decide
+
+/-- TRANSLATED SOURCE. `Generated.Src.validateCond` is the condition of `validate_chunk_coords` as it stands in
+    /repo's source, translated mechanically on every run. It accepts a sextuple for a listed chunk size exactly
+    when that sextuple is a cell of the chunk grid — for all integers and positive chunk sizes. (If the source
+    condition is edited, this theorem is re-checked against the new text; if it no longer holds the check
+    searches for a sextuple on which the real function and the grid specification disagree.) -/
+theorem source_grid_test_is_exact (size : Int × Int × Int) (css : List (Int × Int × Int)) (b : Box)
+    (hpos : ∀ cs ∈ css, 0 < cs.1 ∧ 0 < cs.2.1 ∧ 0 < cs.2.2) :
+    (∃ cs ∈ css, Generated.Src.validateCond (xmin := b.xmin) (xmax := b.xmax) (ymin := b.ymin) (ymax := b.ymax)
+        (zmin := b.zmin) (zmax := b.zmax) (xs := size.1) (ys := size.2.1) (zs := size.2.2)
+        (xcs := cs.1) (ycs := cs.2.1) (zcs := cs.2.2)) ↔ onGrid size css b := by
+  rw [← validate_iff size css b hpos]
+  simp only [validate, List.any_eq_true]
+  constructor
+  · rintro ⟨cs, hm, h⟩
+    exact ⟨cs, hm, (Source.validateCond_iff_model b _ _ _ _ _ _).mp h⟩
+  · rintro ⟨cs, hm, h⟩
+    exact ⟨cs, hm, (Source.validateCond_iff_model b _ _ _ _ _ _).mpr h⟩
 
 end NgVerif.Props.C03
